@@ -391,11 +391,17 @@ func findObject(pd *container, path string) (container, string) {
 }
 
 func (d *partialDoc) set(key string, val *lazyNode) error {
+	if *d == nil {
+		return fmt.Errorf("unable to set key in a null document: %s: %w", key, ErrInvalid)
+	}
 	(*d)[key] = val
 	return nil
 }
 
 func (d *partialDoc) add(key string, val *lazyNode) error {
+	if *d == nil {
+		return fmt.Errorf("unable to add key to a null document: %s: %w", key, ErrInvalid)
+	}
 	(*d)[key] = val
 	return nil
 }
